@@ -392,6 +392,7 @@ func checkC08(rep *vk.Report) {
 		"scripts end in success within the retry budget, so a fallback's output is never a legitimate result",
 		"yield hooks result.cancel.between / retry.beforeInitializeRetry / async.* (verif tag) only perturb scheduling",
 	}
+	vk.StartHeartbeat()
 	installYields(rep.Seed)
 	defer failsafe.VerifSetYield(nil)
 	n := scale(rep, 4000, 300000)
@@ -497,11 +498,16 @@ func c08Scenario(rep *vk.Report, idx int, prop string) {
 		}
 		// every wait of the scenario (3s retry/hedge delay, 1s limiter wait, 3s bulkhead wait) starts after the call began and
 		// would end on its own no earlier than start+wait: an execution that completes at or after that instant waited it out
-		if total := o.doneAt.Sub(o.startAt); o.markerSeq != 0 && total >= wait {
+		if stall := vk.StalledBetween(o.startAt, o.doneAt); o.markerSeq != 0 && stall >= 250*time.Millisecond && o.doneAt.Sub(o.markerAt) >= wait/2 {
+			// this process was not scheduled for a long stretch of the scenario: elapsed time says nothing about the library
+			rep.Count("promptness_not_judged_process_stalled", 1)
+		} else if total := o.doneAt.Sub(o.startAt); o.markerSeq != 0 && total >= wait {
 			viol("waited-out-the-delay", fmt.Sprintf("execution was cancelled %v after it began but completed only %v after it began; the wait it was in (%v) would have ended on its own by then", o.markerAt.Sub(o.startAt), total, wait))
 			return
 		}
-		if late := o.doneAt.Sub(o.markerAt); o.markerSeq != 0 && late >= wait {
+		if late := o.doneAt.Sub(o.markerAt); vk.StalledBetween(o.startAt, o.doneAt) >= 250*time.Millisecond {
+			// not judged (see above)
+		} else if o.markerSeq != 0 && late >= wait {
 			viol("waited-out-the-delay", fmt.Sprintf("execution completed %v after the cancellation; the wait it was in is %v", late, wait))
 			return
 		} else if o.markerSeq != 0 && late >= wait/2 {
